@@ -400,6 +400,11 @@ func trueMin(r *rnode, cur int8) int8 {
 // itself delivered is consistent with the delivery.
 func levelOK(r *rnode, got, cur int8) bool {
 	named, tm := minLevel(r, cur), trueMin(r, cur)
+	if tm > lInvalid {
+		// only levels above the named range are delivered: the threshold itself, or
+		// InvalidLevel ("no named level"), both describe that delivery
+		return got == tm || got == lInvalid
+	}
 	if tm >= lDebug || tm == named {
 		return got == named
 	}
